@@ -11,20 +11,32 @@ Has(r, f) == f \in DOMAIN r
 Bad(cs) == LET F[i \in 0..Len(cs)] == IF i = 0 THEN <<>> ELSE IF cs[i][1] THEN F[i-1] ELSE Append(F[i-1], cs[i][2]) IN F[Len(cs)]
 Verdict(cs, exp) == LET b == Bad(cs) IN [ok |-> b = <<>>, exp |-> [bad |-> b, want |-> exp]]
 
+\* what the call showed: o = [kind, v, rem, buf]
+Obs(e) == [kind |-> e.kind, v |-> IF Has(e, "value") THEN e.value ELSE 0,
+           rem |-> IF e.rem_len >= 0 /\ e.rem_len <= Len(e.chunk) THEN SubSeq(e.chunk, Len(e.chunk) - e.rem_len + 1, Len(e.chunk)) ELSE <<>>,
+           buf |-> e.post]
+\* ghost of an edge event (ghost = 0): the harness brought the accumulator into state pre by feeding pre (no zero, fits)
+\* to a fresh accumulator, so the current segment so far is pre and no overflow has been reported in it
+GhostOf(e) == IF e.ghost = 1 THEN g ELSE [seg |-> e.pre, over |-> FALSE, fit |-> FitsFrom(e.n, Len(e.pre), e.chunk), cap |-> e.n]
 JudgeFeed(e) ==
   LET r == Feed(e.n, e.target, e.pre, e.chunk)
-      lv == IF r.kind = "Success" THEN SliceLeaves(r.tk) ELSE <<>> IN
+      o == Obs(e)
+      gh == GhostOf(e)
+      f == IF o.kind = "Success" THEN FrameOutcome(e.target, gh.seg \o SubSeq(e.chunk, 1, Len(e.chunk) - Len(o.rem))) ELSE [kind |-> "none", tk |-> <<>>]
+      lv == IF f.kind = "Success" THEN SliceLeaves(f.tk) ELSE <<>>
+      sameAsModel == e.kind = r.kind /\ e.post = r.buf /\ e.rem_len = Len(r.rem) IN
   Verdict(<< <<e.kind # "panic", "panic">>,
              <<~Has(e, "setup_failed"), "feed">>,
              <<e.pre_idx = Len(e.pre) /\ e.idx = Len(e.post) /\ e.idx <= e.n, "idx">>,
-             <<e.kind = r.kind /\ (r.kind = "Success" => Has(e, "value") /\ e.value = r.v), "feed">>,
-             <<e.post = r.buf, "state">>,
-             <<e.rem_len = Len(r.rem) /\ e.rem_inplace = 1, "conserve">>,
-             <<(r.kind = "Success" /\ e.mode = "feed_ref") => e.leaves = lv, "leaves">>,
-             <<(e.ghost = 1) => EdgeOK(g.cap, e.target, g.fit, e.chunk, g.seg, g.over, r), "ghost">> >>,
+             <<e.rem_len >= 0 /\ e.rem_len <= Len(e.chunk) /\ e.rem_inplace = 1, "conserve">>,
+             \* the per-call obligations of C08/C09 on what was observed (not on the model's prediction)
+             <<EdgeOKObs(gh.cap, e.target, gh.fit, e.chunk, gh.seg, gh.over, o), "edge">>,
+             <<(o.kind = "Success" /\ e.mode = "feed_ref") => e.leaves = lv, "leaves">> >>,
           [kind |-> r.kind, v |-> r.v, rem_len |-> Len(r.rem), post |-> r.buf, branch |-> r.br, leaves |-> lv,
+           \* agreement with the implementation-shaped step function is reported but is not an obligation of the properties
+           same_as_model |-> sameAsModel,
            \* which environment the step belongs to: C08 quantifies over streams whose segments fit, C09 over all
-           env |-> IF (IF e.ghost = 1 THEN g.fit ELSE FitsFrom(e.n, Len(e.pre), e.chunk)) THEN "fit" ELSE "nofit"])
+           env |-> IF gh.fit THEN "fit" ELSE "nofit"])
 
 Judge(e) ==
   CASE e.op = "feed" -> JudgeFeed(e)
@@ -38,8 +50,8 @@ Next == /\ l <= Len(Rec) /\ l' = l + 1
              /\ IF j.ok THEN TRUE ELSE PrintT(<<"MISMATCH", l, ToJson(j.exp)>>)
              /\ g' = IF e.op = "acc_reset" THEN [seg |-> <<>>, over |-> FALSE, fit |-> FitsFrom(e.n, 0, e.stream), cap |-> e.n]
                      ELSE IF e.op = "feed" /\ e.ghost = 1 /\ e.kind # "panic" THEN
-                          \* continue from the model's transition (the observed one was compared with it above)
-                          LET r == Feed(e.n, e.target, e.pre, e.chunk)  ns == NextSeg(e.chunk, g.seg, g.over, r)
+                          \* continue from what the implementation consumed and reported
+                          LET ns == NextSeg(e.chunk, g.seg, g.over, Obs(e))
                           IN [g EXCEPT !.seg = ns.seg, !.over = ns.over]
                      ELSE g
 Spec == Init /\ [][Next]_<<l, g>>
